@@ -205,6 +205,29 @@ theorem inv_arriveEnd {a : Nat} {s : Sys} (h : Inv a s) (backlog : Nat) : Inv a 
       · have := inv_queue h hp
         exact this
 
+/-- `arriveEnd` with the receiving blocked acceptor named by the caller -/
+theorem inv_arriveEndTo {a : Nat} {s : Sys} (h : Inv a s) (backlog pref : Nat) :
+    Inv a (s.arriveEndTo backlog pref) := by
+  unfold Sys.arriveEndTo
+  split
+  · exact h
+  · next hc =>
+    have hp : s.arrPending = true := by simpa using hc
+    cases hth : s.ths[pref]? with
+    | none => exact inv_arriveEnd h backlog
+    | some th =>
+      simp only
+      split
+      · next hc2 =>
+        obtain ⟨l1, l2, hs, rfl⟩ := split_at _ _ _ hth
+        cases th with | mk r p =>
+        have hpc : p = .parkedSelect := hc2.1
+        subst hpc
+        rw [setPc_eq' _ l1 l2 ⟨r, .parkedSelect⟩ _] <;> try exact hs
+        have := inv_give h hs hp
+        exact this
+      · exact inv_arriveEnd h backlog
+
 theorem inv_arrive {a : Nat} {s : Sys} (h : Inv a s) (backlog : Nat) : Inv a (s.arrive backlog) :=
   inv_arriveEnd (inv_arriveBegin h) backlog
 
@@ -214,6 +237,8 @@ theorem inv_stepOp {a : Nat} {s : Sys} (h : Inv a s) (backlog : Nat) (op : Op) :
   | arrive => exact inv_arrive h backlog
   | arriveBegin => exact inv_arriveBegin h
   | arriveEnd => exact inv_arriveEnd h backlog
+  | arriveEndTo t => exact inv_arriveEndTo h backlog t
+  | arriveTo t => exact inv_arriveEndTo (inv_arriveBegin h) backlog t
   | grantErr t =>
     unfold stepOp
     simp only
